@@ -508,6 +508,59 @@ def run_text_roundtrip(chk, F):
            key='E5t|read_simplex|inf')
 
 
+def run_scalar_init(chk, F):
+    """E1i-scalar-init: the iterators and ranges of the simplex tree are copied around by value (boost::iterator_range,
+    filter adaptors): copying an object loads every scalar member, and loading an indeterminate bool / pointer is
+    undefined behaviour. In every class of the Simplex_tree headers each constructor gives a value to each member of
+    scalar or pointer type: in its initialiser list, by an assignment in its body, through a default member
+    initialiser (`= v` on the declaration, read from the source line), or by delegating to a member function of the
+    class that assigns it."""
+    seen = set()
+    n = 0
+    src_cache = {}
+    for c in F.classes:
+        if c.get('inst') != 0 or '/Simplex_tree/' not in c['file'] or (c['name'], c['line']) in seen:
+            continue
+        seen.add((c['name'], c['line']))
+        sc = [fl for fl in c.get('fields', []) if fl.get('ity') or (fl.get('t') or '').rstrip().endswith('*')]
+        if not sc:
+            continue
+        if c['file'] not in src_cache:
+            src_cache[c['file']] = open(c['file']).read().split('\n')
+        lines = src_cache[c['file']]
+        dflt = {fl['n'] for fl in sc if fl.get('l') and '=' in lines[fl['l'] - 1].split('//')[0]}
+        methods = [f for f in F.functions if f.get('clsname') == c['name'] and f['file'] == c['file'] and
+                   f.get('inst') == 0 and f.get('unit') == 'st_pat' and f.get('body') is not None]
+        assigns = {}
+        for m in methods:
+            w = set()
+            for x in ir.walk(m['body']):
+                t = ir.write_target(x)
+                if t is not None:
+                    w.add(ir.show(t).replace('this->', ''))
+            assigns[m['name']] = assigns.get(m['name'], set()) | w
+        for k in methods:
+            if k['kind'] not in ('ctor', 'default_ctor'):
+                continue
+            w = {i.get('member') for i in (k.get('inits') or []) if isinstance(i, dict) and i.get('written')}
+            w |= assigns.get(k['name'], set()) if False else set()
+            for x in ir.walk(k['body']):
+                t = ir.write_target(x)
+                if t is not None:
+                    w.add(ir.show(t).replace('this->', ''))
+                if ir.is_call(x) and ir.is_this_call(x):
+                    w |= assigns.get(ir.call_name(x), set())
+            for fl in sc:
+                n += 1
+                ok = fl['n'] in w or fl['n'] in dflt
+                chk.ob('E1i-scalar-init', '%s: the constructor at line %d gives `%s` a value' % (c['name'], k['line'],
+                       fl['n']), '%s:%d' % (rel(k['file']), k['line']), ok, '' if ok else
+                       '`%s` (%s) is left indeterminate: the objects of this class are copied by value, which loads it '
+                       '(undefined behaviour for a bool / pointer with an invalid value)' % (fl['n'], fl.get('t')),
+                       key='E1i|%s|%s|%d' % (c['name'], fl['n'], len(k.get('params', []))))
+    chk.expect_count('E1i-scalar-init', 'scalar members x constructors in the Simplex_tree headers', n, 20)
+
+
 def run_conditional_bases(chk, F):
     """E1-conditional-base: option-dependent parts are bases of the form std::conditional<C, A, B>::type. Wherever a
     member function (swap, assignment, constructors) treats the object as one of the two alternatives
@@ -981,6 +1034,7 @@ def run(tier, replay=None):
     run_settings_forwarding(chk, F)
     run_settings_alias(chk, F)
     run_conditional_bases(chk, F)
+    run_scalar_init(chk, F)
     run_text_roundtrip(chk, F)
     run_moved_from(chk, F)
     # deserialisation rebuilds the dimension bound of the tree it creates (shared rule C01/R3b)
